@@ -87,9 +87,15 @@ func main() {
 		for s := 0; s < nTable; s++ {
 			add(childSpec{Mode: "table", Shard: s, NShards: nTable, LogLevel: levels[s%len(levels)]}, cfg.BinPlain, 15*time.Minute)
 		}
-		add(childSpec{Mode: "origin", LogLevel: "info"}, cfg.BinPlain, 10*time.Minute)
+		for s := 0; s < 4; s++ {
+			add(childSpec{Mode: "origin", Shard: s, NShards: 4, LogLevel: levels[(s+3)%len(levels)]}, cfg.BinPlain, 10*time.Minute)
+		}
 		add(childSpec{Mode: "dev"}, cfg.BinPlain, 10*time.Minute)
 		add(childSpec{Mode: "poison", LogLevel: "debug"}, cfg.BinPlain, 10*time.Minute)
+		add(childSpec{Mode: "keyperm", LogLevel: "error"}, cfg.BinPlain, 10*time.Minute)
+		for s := 0; s < cfg.N(2, 6); s++ {
+			add(childSpec{Mode: "expiredtwice", Shard: s, N: cfg.N(30, 200), LogLevel: levels[(s+7)%len(levels)]}, cfg.BinPlain, 10*time.Minute)
+		}
 		for s := 0; s < cfg.N(3, 10); s++ {
 			add(childSpec{Mode: "sessclean", Shard: s, N: cfg.N(2000, 6000), LogLevel: levels[(s+6)%len(levels)]}, cfg.BinPlain, 10*time.Minute)
 		}
@@ -189,6 +195,7 @@ func finish(cfg vlib.Cfg, rep *vlib.Report) {
 		"expiry sub-table: 6 orders of keys with different expiry (one passing its expiry while loaded) x before/after x Bearer/Basic x 11 handlers x 5 methods",
 		"development mode sub-table: every target x method variant x one credential per class",
 		"token-isolation sub-table: 16 handlers that write into the AuthToken of their own request (plain, wrapped, Endpoints of all function types; declared Anyone/Dynamic/User/Admin) x one credential per class x GET/POST, each followed by 11 credential classes x 7 handlers x GET/POST",
+		"key-permission-word sub-table: one key per (read word x write word) over 30 words (documented, self/dynamic/notfound in several cases, numbers, garbage, padded) x 5 handlers x GET/POST",
 		"preflight-header sub-table: 7 non-OPTIONS methods x 8 Access-Control-Request-Method values (+ 2 with same Origin) x every plain handler (9x9) and Endpoint x one credential per class",
 		"bridge sub-table: every Endpoint x 7 methods x dev on/off",
 	})
@@ -202,6 +209,8 @@ func finish(cfg vlib.Cfg, rep *vlib.Report) {
 	rep.Floor(rep.Counter("expiry_requests_after") >= 500, "expiry_requests_after=%d", rep.Counter("expiry_requests_after"))
 	rep.Floor(rep.Counter("poison_mutations") >= 200 && rep.Counter("poison_followup_requests") >= 10000, "poison_mutations=%d followups=%d", rep.Counter("poison_mutations"), rep.Counter("poison_followup_requests"))
 	rep.Floor(rep.Counter("sessclean_reset_checks") >= 500 && rep.Counter("cleaner_passes") >= 100, "sessclean_reset_checks=%d cleaner_passes=%d", rep.Counter("sessclean_reset_checks"), rep.Counter("cleaner_passes"))
+	rep.Floor(rep.Counter("keyperm_cells") >= 5000, "keyperm_cells=%d", rep.Counter("keyperm_cells"))
+	rep.Floor(rep.Counter("expired_cookie_presentations") >= 500, "expired_cookie_presentations=%d", rep.Counter("expired_cookie_presentations"))
 	rep.Floor(rep.Counter("acrm_cells") >= 100000, "acrm_cells=%d", rep.Counter("acrm_cells"))
 	rep.Floor(rep.Counter("bridge_requests") >= 100, "bridge_requests=%d", rep.Counter("bridge_requests"))
 	rep.Floor(rep.Counter("wire_requests") >= 50, "wire_requests=%d", rep.Counter("wire_requests"))
@@ -273,6 +282,10 @@ func childMain(dir string) {
 		rerr = runRevoke(w, j, cs)
 	case "expiry":
 		rerr = runExpiry(w, j, cs)
+	case "keyperm":
+		rerr = runKeyPerm(w, j, cs)
+	case "expiredtwice":
+		rerr = runExpiredTwice(w, j, cs)
 	case "poison":
 		rerr = runPoison(w, j, cs)
 	case "sessclean":
